@@ -34,6 +34,17 @@ where
         })
     }
 
+    /// Verification only: (queued elements, queued unblock tokens).
+    #[cfg(tiny_http_verif)]
+    pub fn verif_snapshot(&self) -> (usize, usize) {
+        let queue = self.queue.lock().unwrap();
+        let elems = queue
+            .iter()
+            .filter(|c| matches!(c, Control::Elem(_)))
+            .count();
+        (elems, queue.len() - elems)
+    }
+
     /// Pushes an element to the queue.
     pub fn push(&self, value: T) {
         let mut queue = self.queue.lock().unwrap();
